@@ -170,6 +170,20 @@ NEG_OP = {ast.Eq: ast.NotEq, ast.NotEq: ast.Eq, ast.Lt: ast.GtE, ast.GtE: ast.Lt
 NEGATIVE_OPS = (ast.NotEq, ast.IsNot, ast.NotIn)
 
 
+def intlike(x):
+    if isinstance(x, ast.Constant):
+        return isinstance(x.value, int) and not isinstance(x.value, bool)
+    if isinstance(x, ast.Attribute):
+        return x.attr.endswith(('_start', '_end')) or x.attr in ('size', 'm', 'n', 'num_eigvalues', 'maxNumIter')
+    if isinstance(x, ast.Name):
+        return x.id in ('row', 'col', 'row0', 'col0', 'size', 'i', 'j', 'k', 'l', 'iteration', 'step_num', 'n', 'm')
+    if isinstance(x, ast.Call):
+        return dotted(x.func) == 'len'
+    if isinstance(x, ast.BinOp) and isinstance(x.op, (ast.Add, ast.Sub, ast.Mult)):
+        return intlike(x.left) and intlike(x.right)
+    return False
+
+
 def negate(t):
     if isinstance(t, ast.UnaryOp) and isinstance(t.op, ast.Not):
         return nnf(t.operand)
@@ -177,8 +191,8 @@ def negate(t):
         op = ast.Or() if isinstance(t.op, ast.And) else ast.And()
         return ast.BoolOp(op=op, values=[negate(v) for v in t.values])
     if isinstance(t, ast.Compare) and len(t.ops) == 1 and type(t.ops[0]) in NEG_OP:
-        # order comparisons are not negated (nan): only ==, is, in and their negations
-        if isinstance(t.ops[0], (ast.Lt, ast.GtE, ast.Gt, ast.LtE)):
+        # order comparisons are not negated (nan) unless both sides are integer-like (offsets, sizes, counters, integer literals)
+        if isinstance(t.ops[0], (ast.Lt, ast.GtE, ast.Gt, ast.LtE)) and not (intlike(t.left) and intlike(t.comparators[0])):
             return ast.UnaryOp(op=ast.Not(), operand=t)
         return ast.Compare(left=t.left, ops=[NEG_OP[type(t.ops[0])]()], comparators=t.comparators)
     if isinstance(t, ast.Constant) and isinstance(t.value, bool):
@@ -728,6 +742,11 @@ class Normalizer:
                         and not isinstance(body[0].value, ast.IfExp) and not isinstance(orelse[0].value, ast.IfExp):
                     ife = ast.IfExp(test=st.test, body=body[0].value, orelse=orelse[0].value)
                     out += self.split_assign(ast.Assign(targets=[body[0].targets[0]], value=ife))
+                elif len(body) == 1 and len(orelse) == 1 and isinstance(body[0], ast.AugAssign) and isinstance(orelse[0], ast.AugAssign) \
+                        and type(body[0].op) is type(orelse[0].op) and dump(body[0].target) == dump(orelse[0].target) and dotted(body[0].target) is not None \
+                        and is_pure(body[0].value) and is_pure(orelse[0].value) and is_pure(st.test):
+                    # if c: x += a else: x += b   ->   x += a if c else b
+                    out.append(ast.AugAssign(target=body[0].target, op=body[0].op, value=ast.IfExp(test=st.test, body=body[0].value, orelse=orelse[0].value)))
                 else:
                     st.body, st.orelse = body, orelse
                     tail = []
@@ -1139,7 +1158,21 @@ class Normalizer:
                             for c in ast.walk(hdr if not isinstance(n, ast.For) else n.iter):
                                 if isinstance(c, ast.Call) and not state_preserving_call(c):
                                     wr = self.call_writes(c)
-                                    if '*' in wr or has_sub or not attrs or any(a.split('.')[0] != 'self' or (len(a.split('.')) > 1 and a.split('.')[1] in wr) for a in attrs):
+                                    hit = False
+                                    if has_sub or not attrs:
+                                        hit = True
+                                    for a in attrs:
+                                        base, rest_ = a.split('.')[0], a.split('.')[1:]
+                                        if base == 'self':
+                                            if '*' in wr or (rest_ and rest_[0] in wr):
+                                                hit = True
+                                        elif len(rest_) == 1 and base in names | {x for x in asg}:
+                                            wo = self.call_writes_obj(c, base, rest_[0])
+                                            if '*' in wo or rest_[0] in wo:
+                                                hit = True
+                                        else:
+                                            hit = True
+                                    if hit:
                                         killers.add(k)
                     ok = True
                     after_D = cfg.reachable(D)
@@ -1216,6 +1249,26 @@ class Normalizer:
                 eff = v
         if d and d.startswith('self.') and d.count('.') == 1 and eff is not None and d[5:] in eff:
             return eff[d[5:]]
+        return {'*'}
+
+    def call_writes_obj(self, c, obj, attr=None):
+        """attributes of the local object `obj` a call may write: for obj.method(...) the union over all analysed classes defining
+        that method name; a call that does not involve obj at all cannot (objects reachable only through obj's own attributes aside)"""
+        d = dotted(c.func)
+        geff = self.sigdb.get(('effects_any',), {})
+        involved = any(isinstance(x, ast.Name) and x.id == obj for x in ast.walk(c))
+        if not involved:
+            return set()
+        if d and d.startswith(obj + '.') and d.count('.') == 1 and d.split('.')[1] in geff:
+            # the classes that define this method; when an attribute name is given, only those that own such an attribute
+            cands = geff[d.split('.')[1]]
+            if attr is not None:
+                own = [c_ for c_ in cands if attr in c_[1]]
+                cands = own or cands
+            w = set()
+            for _, _, ww in cands:
+                w |= ww
+            return w
         return {'*'}
 
     def moves(self, fn):
@@ -1559,6 +1612,25 @@ class Normalizer:
                         blk[i:i + 2] = [ast.Assign(targets=b.targets, value=a.value)]
                         changed = True
                         continue
+                # self.m(...) [result unused] ; <next statement reads self.X>  where every return of m is `return self.X`
+                if mode == 'merge' and isinstance(a, (ast.Expr, ast.Assign)) and isinstance(a.value, ast.Call) and isinstance(b, (ast.Assign, ast.AugAssign, ast.Return, ast.Expr)):
+                    dm = dotted(a.value.func)
+                    ra = self.sigdb.get(('retattr', dm[5:])) if dm and dm.startswith('self.') and dm.count('.') == 1 else None
+                    unused = isinstance(a, ast.Expr) or (len(a.targets) == 1 and isinstance(a.targets[0], ast.Name)
+                                                        and sum(1 for n in free_names(fn) if n.id == a.targets[0].id) == 1)
+                    if ra and unused:
+                        hits = [n for n in ast.walk(b) if isinstance(n, ast.Attribute) and isinstance(n.ctx, ast.Load) and dotted(n) == 'self.' + ra]
+                        others = [c for c in ast.walk(b) if isinstance(c, ast.Call) and not is_pure(c)]
+                        if len(hits) == 1 and not others:
+                            class RC(ast.NodeTransformer):
+                                def visit_Attribute(self, n):
+                                    if n is hits[0]:
+                                        return a.value
+                                    self.generic_visit(n)
+                                    return n
+                            blk[i:i + 2] = [RC().visit(b)]
+                            changed = True
+                            continue
                 # t = CALL; <next statement uses t once and makes no other impure call>  ->  the call moves into the next statement
                 if mode == 'merge' and isinstance(a, ast.Assign) and len(a.targets) == 1 and isinstance(a.targets[0], ast.Name) and a.targets[0].id not in self.params \
                         and isinstance(a.value, ast.Call) and isinstance(b, (ast.Assign, ast.AugAssign, ast.Return, ast.Expr)):
@@ -2093,6 +2165,34 @@ def build_sigdb(mod_funcs, class_methods, cls, extra=None):
         db[('rebuild', cls)] = class_methods[cls]['_rebuild']
     if cls:
         db[('effects', cls)] = class_effects(class_methods.get(cls, {}))
+        for name, f in class_methods.get(cls, {}).items():
+            attrs = set()
+            blocks = [f.body] + [getattr(n, a_) for n in own_walk(f) for a_ in ('body', 'orelse', 'finalbody')
+                                 if isinstance(getattr(n, a_, None), list) and getattr(n, a_) and isinstance(getattr(n, a_)[0], ast.stmt) and n is not f
+                                 and not isinstance(n, (ast.FunctionDef, ast.ClassDef, ast.Lambda))]
+            nret = 0
+            for blk in blocks:
+                for i, st in enumerate(blk):
+                    if not isinstance(st, ast.Return):
+                        continue
+                    nret += 1
+                    d = dotted(st.value) if st.value is not None else None
+                    if d and d.startswith('self.') and d.count('.') == 1:
+                        attrs.add(d[5:])
+                        continue
+                    # x = ...; self.X = x; <state-preserving statements>; return x
+                    found = None
+                    if isinstance(st.value, ast.Name):
+                        for prev in reversed(blk[:i]):
+                            if isinstance(prev, ast.Assign) and len(prev.targets) == 1 and isinstance(prev.value, ast.Name) and prev.value.id == st.value.id \
+                                    and dotted(prev.targets[0]) and dotted(prev.targets[0]).startswith('self.') and dotted(prev.targets[0]).count('.') == 1:
+                                found = dotted(prev.targets[0])[5:]
+                                break
+                            if not (isinstance(prev, ast.Expr) and isinstance(prev.value, ast.Call) and (state_preserving_call(prev.value) or dotted(prev.value.func) in ('gc.collect', 'msg'))):
+                                break
+                    attrs.add(found)
+            if nret and len(attrs) == 1 and None not in attrs:
+                db[('retattr', name)] = next(iter(attrs))
     for k, v in (extra or {}).items():
         db.setdefault(k, v)
     return db
